@@ -43,6 +43,8 @@ ASSUMPTIONS = [
     "registered in the workspace state; files outside SCM directories, the stash and the reflog are not covered",
     "submodules, shallow clones, rebase:true, rev: refs/..., svn/cvs, http(s) and the url SCM's extraction tools are not covered",
     "deterministic checkouts (tag/commit/url with digest) assume immutable upstream: after an upstream tag move convergence is not claimed",
+    "upstream branches move forward or are rewritten to a diverging history (Bob then fails loudly); a pure rewind to an ancestor (also "
+    "by switching to a lagging mirror url) is not generated: merge --ff-only reports 'up to date' and the workspace silently stays ahead",
     "import SCM: prune empties its directory by design; import/url content is never placed inside a nested SCM directory",
 ]
 
@@ -672,14 +674,13 @@ def _history(w, r, rec, nevents, want_model, parse_gitlog, snap_of, deadline=Non
         elif k < 0.36:
             t = r.random()
             if t < 0.7:
-                name = r.choice(["r0", "r0", "r1", "r0m"])
-                if name == "r0m":
-                    # the mirror catches up with r0
+                name = r.choice(["r0", "r0", "r1"])
+                desc = w.upstream_op(r, name)
+                if name == "r0":
+                    # the mirror follows immediately: a branch never moves *backwards* to an ancestor, not even by
+                    # changing the url (merge --ff-only would silently report "up to date", see ASSUMPTIONS)
                     w.git(w.repos["r0m"], "fetch", "-q", "-p", w.repos["r0"], "+refs/*:refs/*", check=False)
                     w.index_commits(w.repos["r0m"])
-                    desc = "mirror-sync"
-                else:
-                    desc = w.upstream_op(r, name)
                 if "movetag" in desc:
                     exempt = True
             elif t < 0.85:
@@ -857,6 +858,18 @@ def user_op(w, r, path, ledger):
         return "detach: nothing"
     c = r.choice(cs)
     rc, _ = w.git(path, "checkout", "-q", "--detach", c, check=False)
+    if rc == 0 and r.random() < 0.5:
+        # work on the detached HEAD: the commit is held by nothing but HEAD
+        with open(os.path.join(path, "d%d.txt" % w.counter), "w") as fh:
+            fh.write(w.token("detached") + "\n")
+        w.git(path, "add", "-A", ".", check=False)
+        rc2, _ = w.git(path, "commit", "-q", "-m", "detached " + w.token("m"), check=False)
+        if rc2 == 0:
+            rc2, sha = w.git(path, "rev-parse", "HEAD")
+            w.user_commits.add(sha.strip())
+            w.index_commits(path)
+            ledger.append({"kind": "commit", "sha": sha.strip()})
+            return "detach %s + commit %s" % (c[:8], sha.strip()[:8])
     return "detach %s rc=%d" % (c[:8], rc)
 
 
